@@ -82,6 +82,29 @@ pub fn check_stream(
         ),
         1 => {
             let mut d = Lzma2Decoder::new();
+            // a well-formed stream starts by resetting everything it depends on, so it must also
+            // decode on a decoder object that has already been used - for a complete stream, or for
+            // one that failed half-way (cut short / corrupted) - whether or not reset() was called
+            if rng.chance(1, 3) && w.bytes.len() > 2 {
+                let mut junk = w.bytes.clone();
+                match rng.below(3) {
+                    0 => junk.truncate(rng.range(1, junk.len() as u64 - 1) as usize),
+                    1 => {
+                        let i = rng.usize_below(junk.len());
+                        junk[i] ^= 1 << rng.below(8);
+                    }
+                    _ => {}
+                }
+                let pre = sut::raw_lzma2_decompress(&mut d, &junk, ReaderKind::Slice, &SharedSink::counting_only(), &sut::new_obs(u64::MAX));
+                if pre.verdict.is_abnormal() {
+                    return; // C07's finding
+                }
+                cov.inc("raw_decoder_used_before", pre.verdict.is_ok() as u32);
+                if rng.chance(1, 3) {
+                    let _ = sut::guarded(|| d.reset());
+                    cov.name("raw_decoder_used_before.then_reset", 1);
+                }
+            }
             (sut::raw_lzma2_decompress(&mut d, &w.bytes, rk, &sink, &obs), w.bytes.clone())
         }
         _ => {
@@ -434,6 +457,7 @@ fn fam_liblzma(ctx: &CaseCtx, cov: &mut Cov) -> CaseOut {
 
 fn label(group: &str, i: u32) -> String {
     match group {
+        "raw_decoder_used_before" => ["earlier call failed", "earlier call succeeded"][i as usize].to_string(),
         "api" => API[i as usize].to_string(),
         _ => std_label(group, i),
     }
